@@ -56,7 +56,9 @@ func (b c17BA) pb() tmbits.BitArray {
 func (b c17BA) coq() string {
 	return vg.App("Build_bitarr", "true", vg.Z(b.bits), vg.Z(int64(b.elems)))
 }
-func (b c17BA) String() string { return fmt.Sprintf("BitArray{Bits:%d,len(Elems):%d}", b.bits, b.elems) }
+func (b c17BA) String() string {
+	return fmt.Sprintf("BitArray{Bits:%d,len(Elems):%d}", b.bits, b.elems)
+}
 
 type c17BID struct {
 	hashLen    int
